@@ -192,13 +192,16 @@ def template_task(task):
         m.last_params = params
         ref = PG.Ref(ctx, params)
         fa = ref.answers(extra.get('ref_prog') or progast, extra.get('vars', ()))
+        if extra.get('reify_balance'):
+            fa = [(('cons', t_, ('cons', ('num', 0), ('nil',))), []) for t_, cs_ in fa]
         if ref.truncated:
             raise NotEncodable('reference interpreter truncated')
         if ref.infinite and mode not in ('subset', 'covers'):
             raise NotEncodable('infinite program must be compared in subset mode')
         res = m.call(name, list(params) + [limit])
         ea = PG.engine_answers(m, res)
-        if len(ea) >= limit and mode not in ('subset', 'covers'):
+        if len(ea) >= limit and mode not in ('subset', 'covers') and not (len(fa) < limit):
+            # (an engine that returns `limit` answers where the finite reference has fewer is compared as it is: too many answers)
             raise NotEncodable('answer limit reached')
         m.reify_report = reify_checks(m, res) if not extra.get('user') else None
         m.second_run = None
@@ -342,7 +345,17 @@ def case_source_user(prop, name, progast, nparams, pv, kind, data, what, path, e
     if kind == 'instance':
         goals = goals + ['q == %s' % data[0]]
     body = ',\n        '.join(goals)
-    run = ('    let q: TC = LTerm::var("q");\n    let goal: Goal<CntUser, CE> = proto_vulcan!([\n        %s\n    ]);\n'
+    if extra.get('reify_balance'):
+        run = ('    let q: TC = LTerm::var("q");\n    let goal: Goal<CntUser, CE> = proto_vulcan!([\n        %s,\n        proto_vulcan::state::reify(q.clone())\n    ]);\n'
+               '    let mut solver: Solver<CntUser, CE> = Solver::new((), false);\n'
+               '    let mut stream = solver.start(&goal, State::new(CntUser::default()));\n'
+               '    let mut got: Vec<String> = vec![];\n'
+               '    while got.len() < 64 { match solver.next(&mut stream) { Some(st) => { let bal = st.user_state.with_calls - st.user_state.take_calls - (st.cstore_ref().iter().count() as isize);\n'
+               '        let s = format!("[{}, {}]", st.smap_ref().walk_star(&q), bal); let mut o = String::new(); let mut it = s.chars().peekable();\n'
+               '        while let Some(c) = it.next() { o.push(c); if c == \'_\' { if it.peek() == Some(&\'.\') { it.next(); while it.peek().map_or(false, |d| d.is_ascii_digit()) { it.next(); } } } }\n'
+               '        got.push(o) } None => break } }\n' % body)
+    else:
+      run = ('    let q: TC = LTerm::var("q");\n    let goal: Goal<CntUser, CE> = proto_vulcan!([\n        %s\n    ]);\n'
            '    let mut solver: Solver<CntUser, CE> = Solver::new((), false);\n'
            '    let mut stream = solver.start(&goal, State::new(CntUser::default()));\n'
            '    let mut got: Vec<String> = vec![];\n'
